@@ -37,7 +37,7 @@ class C03(Prop):
                 "f": "expectile",
                 "level": rng.choice(ic.DYADIC_LEVELS + ic.DECIMAL_LEVELS),
                 "inc": rng.random() < 0.5,
-                "y": ic.gen_y(rng, n, rng.choice(["small", "digits", "dyadic", "neg", "wide"])),
+                "y": ic.gen_y(rng, n, rng.choice(["small", "digits", "dyadic", "neg", "wide", "tiny"])),
                 "w": ic.gen_w(rng, n),
             }
         for k in range(200 if tier == "quick" else 3000):
@@ -55,7 +55,7 @@ class C03(Prop):
         return ic.iso_request(case)
 
     def compare(self, case, io, mo):
-        return ic.compare_xr(io, mo, exact=False, tol=self.TOL, with_r=False)
+        return ic.compare_xr(io, mo, exact=False, tol=self.TOL, with_r=False, scale=ic.data_scale(case))
 
     def oracle(self, case, io):
         if "err" in io:
@@ -71,7 +71,7 @@ class C03(Prop):
                 return f"fit not monotone at {i}: {x[i]!r}, {x[i+1]!r}"
         if case["stream"] == "half":
             for i, (u, v) in enumerate(zip(x, io["mean_x"])):
-                if not close(u, v, self.TOL, self.TOL):
+                if not close(u, v, self.TOL, self.TOL * ic.data_scale(case)):
                     return f"level 1/2 expectile fit differs from the mean fit at {i}: {u!r} vs {v!r}"
         r = io["r"]
         if not inc:
@@ -84,7 +84,7 @@ class C03(Prop):
             ref, _ = ic.pava_exact(ys, ws, T)
         else:
             ref = None
-        scale = max(1.0, max(abs(float(v)) for v in ys))
+        scale = ic.data_scale(case)
         if ref is not None:
             for i in range(n):
                 if abs(x[i] - float(ref[i])) > self.TOL * scale:
